@@ -3389,6 +3389,11 @@ class Evaluator:
             # a path of the helper that the arguments of this call rule out (`if axis not in ("time", "frequency"): raise` with axis="time")
             return Event(e.kind, FALSE, inst(e.term), e.node, (), -1)
         lv_ = AND(live, inst(e.live))
+        if e.kind == "call":
+            t_ = prune(inst(e.term), lv_)
+            if t_[0] != "call":
+                # the call was folded away by the substitution (`{"a": x}.get("a", d)` is x, any(<display>) is a condition): no call happens
+                return Event(e.kind, FALSE, t_, e.node, (), -1)
         ne = Event(e.kind, lv_, prune(inst(e.term), lv_), e.node,
                    tuple(self.loop_stack) + tuple(idmap.get(x, x) for x in e.loops), len(self.events),
                    tuple(self.try_stack) + tuple(idmap.get(x, x) for x in e.handlers),
@@ -3790,13 +3795,24 @@ class Evaluator:
         g = n.generators[0]
         table_rows_ = isinstance(g.iter, ast.Call) and isinstance(g.iter.func, ast.Attribute) and g.iter.func.attr in ("items", "keys", "values") \
             and not g.iter.args and not g.iter.keywords and isinstance(g.iter.func.value, (ast.Name, ast.Attribute))
-        if g.ifs or g.is_async or not (isinstance(g.iter, (ast.Tuple, ast.List, ast.Name, ast.Attribute)) or table_rows_ or (
+        rev_ = isinstance(g.iter, ast.Call) and isinstance(g.iter.func, ast.Name) and g.iter.func.id == "reversed" and "reversed" not in self.env \
+            and len(g.iter.args) == 1 and not g.iter.keywords and isinstance(g.iter.args[0], (ast.Tuple, ast.List, ast.Name))
+        if g.ifs or g.is_async or not (isinstance(g.iter, (ast.Tuple, ast.List, ast.Name, ast.Attribute)) or table_rows_ or rev_ or (
                 isinstance(g.iter, ast.Call) and isinstance(g.iter.func, ast.Name) and g.iter.func.id == "zip" and "zip" not in self.env)):
             return None
         if any(isinstance(x, ast.NamedExpr) for x in ast.walk(n)):
             return None
         mark = len(self.events)
         it = self.ev(g.iter, live)
+        if rev_:
+            # ... for d in reversed((x, y)) is ... for d in (y, x)
+            if it[0] == "call" and it[1] == ("builtin", "reversed") and len(it[2]) == 1 and it[2][0][0] in ("tuple", "list") \
+                    and not any(x[0] == "star" for x in it[2][0][1]):
+                del self.events[mark:]
+                it = ("tuple", tuple(reversed(it[2][0][1])))
+            else:
+                del self.events[mark:]
+                return None
         if table_rows_:
             # {k: f(k, v) for k, v in TABLE.items()} over a module-level table with constant keys that nothing mutates: over its rows
             rows_ = None
